@@ -3,8 +3,11 @@ package main
 import (
 	"sort"
 	"fmt"
+	"os"
 	"path/filepath"
 	"strings"
+
+	"github.com/jsightapi/jsight-schema-go-library/fs"
 
 	"github.com/jsightapi/jsight-api-go-library/core"
 )
@@ -318,6 +321,7 @@ func c08Projects(ctx *Ctx, r *Rng) {
 		}
 	}
 	cases += includeDags(ctx, r.Fork())
+	cases += c08InMemoryRoot(ctx)
 	// faulty include targets must be rejected with a diagnostic
 	for _, p := range includeGraphs(r)[:13] {
 		res := RunProject(p, false)
@@ -454,5 +458,60 @@ func includeDags(ctx *Ctx, r *Rng) int {
 		}
 	}
 	ctx.Cov.Component("cycle-free include graphs with shared files vs their flattened text (specification on the implementation)", cases, len(ctx.Violations), "")
+	return cases
+}
+
+
+// c08InMemoryRoot: the root document is given IN MEMORY, under the empty name (the library's convention for a document
+// that was not read from a file) or a relative name; its INCLUDEs are relative to the current directory. The included
+// file must be the one in that directory (never a file of the same name one level up), the result must be that of the
+// inlined text, and a file that exists only outside the directory must be reported as missing.
+func c08InMemoryRoot(ctx *Ctx) int {
+	base, err := os.MkdirTemp(scratchBase(), "jsvm")
+	if err != nil {
+		return 0
+	}
+	defer os.RemoveAll(base)
+	proj := filepath.Join(base, "proj")
+	_ = os.MkdirAll(filepath.Join(proj, "sub"), 0o755)
+	_ = os.WriteFile(filepath.Join(proj, "part.jst"), []byte("TYPE @p\n{}\nINCLUDE sub/inner.jst\n"), 0o644)
+	_ = os.WriteFile(filepath.Join(proj, "sub", "inner.jst"), []byte("TYPE @q\n{}\n"), 0o644)
+	_ = os.WriteFile(filepath.Join(base, "part.jst"), []byte("TYPE @decoy\n{}\n"), 0o644)
+	_ = os.WriteFile(filepath.Join(base, "outside.jst"), []byte("TYPE @outside\n{}\n"), 0o644)
+	old, err := os.Getwd()
+	if err != nil || os.Chdir(proj) != nil {
+		return 0
+	}
+	defer os.Chdir(old)
+	inlined := core.NewJApiCore(fs.NewFile("inlined.jst", []byte("JSIGHT 0.3\nTYPE @p\n{}\nTYPE @q\n{}\nGET /a\n  200 @p\n")), core.WithFixedSeedForRegex())
+	var want []byte
+	if je := inlined.ValidateJAPI(); je == nil {
+		want, _ = inlined.Catalog().ToJson()
+	}
+	cases := 0
+	for _, name := range []string{"", "main.jst", "./main.jst"} {
+		run := func(doc string) (string, []byte) {
+			defer func() { _ = recover() }()
+			c := core.NewJApiCore(fs.NewFile(name, []byte(doc)), core.WithFixedSeedForRegex())
+			if je := c.ValidateJAPI(); je != nil {
+				return "rejected: " + je.Msg, nil
+			}
+			js, _ := c.Catalog().ToJson()
+			return "accepted", js
+		}
+		cases += 2
+		ctx.Cov.Hit("root document given in memory under the name " + fmt.Sprintf("%q", name))
+		in := map[string]any{"op": "memory-root", "name": name}
+		v, js := run("JSIGHT 0.3\nINCLUDE part.jst\nGET /a\n  200 @p\n")
+		if v != "accepted" || string(js) != string(want) {
+			ctx.Violate(Violation{Kind: "wrong-output", Site: "INCLUDE", What: fmt.Sprintf("a root document given in memory under the name %q that INCLUDEs a file of the current directory: %s (the inlined text is accepted; the catalogs %s)", name, v, map[bool]string{true: "are equal", false: "differ"}[string(js) == string(want)]),
+				Input: in, Observed: v, Expected: "accepted, catalog of the inlined text", Signature: "memory-root"})
+		}
+		v2, _ := run("JSIGHT 0.3\nINCLUDE outside.jst\nGET /a\n  200 any\n")
+		if !strings.HasPrefix(v2, "rejected") {
+			ctx.Violate(Violation{Kind: "wrong-output", Site: "INCLUDE", What: fmt.Sprintf("a root document given in memory under the name %q INCLUDEs a file that exists only one level above the current directory, and is accepted", name),
+				Input: in, Observed: v2, Expected: "rejected (missing file)", Signature: "memory-root-outside"})
+		}
+	}
 	return cases
 }
